@@ -545,6 +545,20 @@ def c06(ck):
     n = 8000 if thorough else 1500
     corpus = [l.strip() for l in open(os.path.join(core.ROOT, "corpus", "C06", "sessions.txt")) if l.strip() and not l.startswith("#")]
     ses = corpus + [gen.rand_session_w1(rng, rng.choice([10, 25, 50])) for _ in range(n)]
+    # recall scenarios: lines entered, then a line retyped (equal to / prefix of / different from an entry), cursor moved inside, Up / Down, more keys
+    for _ in range(n // 5):
+        words = [rng.choice([b"echo a", b"nl", "λ→".encode(), b"ab", b"abc", b"x y", "éé".encode()]) for _ in range(rng.randrange(1, 4))]
+        ops = []
+        for w in words:
+            ops += ["b:" + gen.hx(w), "b:0d"]
+        cur = rng.choice(words + [words[-1], words[-1][:1], b"zz"])
+        ops.append("b:" + gen.hx(cur))
+        ops += ["b:" + gen.hx(gen.KEYS["left"])] * rng.randrange(0, 4)
+        for _ in range(rng.randrange(1, 6)):
+            ops.append(rng.choice(["b:" + gen.hx(gen.KEYS["up"]), "b:" + gen.hx(gen.KEYS["up"]), "b:" + gen.hx(gen.KEYS["down"]), "b:" + gen.hx(gen.KEYS["left"]),
+                                   "b:58", "b:" + gen.hx(gen.KEYS["bs"]), "w:s6f", "p:%d" % rng.randrange(4)]))
+        ses.append("%d %d %d raw %s" % (rng.choice([8, 16, 32]), rng.choice([0, 8, 16, 32, 64]), rng.randrange(4), ";".join(ops)))
+    ses = list(dict.fromkeys(ses))
     try:
         hb = ck.binaries("hac", "debug")
         impl = core.run_engine(hb, "ses", ses)
@@ -562,10 +576,36 @@ def c06(ck):
     ck.run_family(Family("session-view", "ses", ses, oracle=oracle, shrink=core.shrink_ops_line(4), decisive=False,
                          project=lambda o: [(s["text"], s["cur"], s["p"], s["sink"].replace(",F", "").replace("F,", "")) for s in (parse_steps(o) or [])] or o,
                          nontrivial=lambda c, o: ("w:" in c or ";p:" in c or "1b5b44" in c or "09" in c)))
+    # derived command sets: completion inside the line (prefix of a name, blanks after the cursor, Left moves, Tab, more typing, writes)
+    declgen, sets = ensure_decls(ck)
+    dses = []
+    for k, s_ in enumerate(sets):
+        vis = declgen.visible_names(s_) + ["help"]
+        for _ in range(40 if thorough else 12):
+            base = rng.choice(vis)
+            w = base[:rng.randrange(1, len(base) + 1)]
+            text = (" " * rng.choice([0, 0, 1]) + w + " " * rng.choice([0, 0, 1, 2, 3])).encode("utf-8")
+            ops = ["b:" + gen.hx(text)] + ["b:" + gen.hx(gen.KEYS["left"])] * rng.choice([0, 0, 1, 2, 3, 4]) + ["b:09"]
+            for _ in range(rng.randrange(0, 5)):
+                ops.append(rng.choice(["b:09", "b:" + gen.hx(gen.KEYS["left"]), "b:" + gen.hx(gen.KEYS["right"]), "b:" + gen.hx(gen.KEYS["bs"]), "b:20",
+                                       "b:" + gen.hx(rng.choice(gen.W1_CHARS)), "w:s6869", "w:l6f6b", "p:%d" % rng.randrange(4), "b:0d"]))
+            capx = len(text) + rng.choice([0, 1, 2, 3, 5, 8, 30])
+            dses.append("%d 16 %d d%d %s" % (capx, rng.randrange(4), k, ";".join(ops)))
+    dses = sorted(set(dses))
+    try:
+        dimpl = core.run_engine(hb, "ses", dses)
+        verdict.update(dict(zip(dses, drv_run("termchk", dimpl))))
+    except Broken as b:
+        ck.broken(b)
+        return ck.finish(trusted=TB_COMMON, rule="build broke")
+    ck.run_family(Family("derived-view", "ses", dses, oracle=oracle, shrink=core.shrink_ops_line(4), decisive=False,
+                         project=lambda o: [(s["text"], s["cur"], s["p"], s["sink"].replace(",F", "").replace("F,", "")) for s in (parse_steps(o) or [])] or o,
+                         nontrivial=lambda c, o: True))
     return ck.finish(trusted=TB_COMMON + ["Spec/Terminal.v: unbounded-width line emulator, width-1 characters, no auto-wrap (as the property's quantifier says)"],
                      rule="random sessions (all keys, Cli::write with split texts, set_prompt, handler output and handler prompt changes, four prompts incl. empty and multi-byte, "
                      "buffer sizes 0..64) over width-1 characters; after EVERY call the implementation's sink bytes are fed to the extracted emulator and its current row and cursor "
-                     "column are compared with the implementation's own prompt + editor text and cursor (hooks); sink bytes also compared with the model. non-trivial = "
+                     "column are compared with the implementation's own prompt + editor text and cursor (hooks); sink bytes also compared with the model. derived-view: the same on "
+                     "generated derived command sets (prefix of a name, blanks after the cursor, Left moves, Tab inside the line, further keys, writes, Enter). non-trivial = "
                      "contains an API write, a prompt change, a cursor move or a completion")
 
 
@@ -930,7 +970,7 @@ def c09(ck):
     rng = ck.rng
     thorough = ck.tier == "thorough"
     declgen, sets = ensure_decls(ck)
-    per = 120 if thorough else 40
+    per = 600 if thorough else 160
     cases = []
     for k, s_ in enumerate(sets):
         lines = [declgen.rand_decl_line(rng, s_) for _ in range(per)]
